@@ -54,7 +54,9 @@ var profiles = map[string]profile{
 		strict:  true,
 	},
 	"future": {
-		wrap:       rx(`^atomic\.`, `\.closed\.(Load|CompareAndSwap|Store)$`, `^f\.closer$`, `^f\.liaison\.Tell$`),
+		// future.go: CAS/Load of closed, closer(), one Tell per forwarder; context.go (func ask): NewFuture, appendFuture
+		wrap: rx(`^atomic\.`, `\.closed\.(Load|CompareAndSwap|Store)$`, `^f\.closer$`, `^f\.liaison\.Tell$`,
+			`^future\.NewFuture\[vivid\.Message\]$`, `^c\.system\.appendFuture$`),
 		assign:     rx(`^f\.(err|message)$`),
 		locks:      rx(`\.mu$`),
 		recvClosed: rx(`\.done$`),
